@@ -33,6 +33,8 @@ package keylock
 //@   requires !held(d.locker)
 //@   atrelease regW = regW + mineKey(d, key)
 //@   ensures #registered regW == old(regW) + mineKey(d, key) && regR == old(regR)
+//@   ensures #holds(@local) wheld(wrLocker.rwLocker)
+//@   ensures #mutexcalls lockcalls() == old(lockcalls()) + 2 && unlockcalls() == old(unlockcalls()) + 1
 //@   opt keeps-lock
 //@   modifies mapsof(d.lockMap), wrapLocker.readCount, wrapLocker.writeCount, regW, region($alloc)
 //
@@ -40,6 +42,8 @@ package keylock
 //@   requires !held(d.locker)
 //@   atrelease regR = regR + mineKey(d, key)
 //@   ensures #registered regR == old(regR) + mineKey(d, key) && regW == old(regW)
+//@   ensures #holds(@local) rheld(wrLocker.rwLocker)
+//@   ensures #mutexcalls lockcalls() == old(lockcalls()) + 2 && unlockcalls() == old(unlockcalls()) + 1
 //@   opt keeps-lock
 //@   modifies mapsof(d.lockMap), wrapLocker.readCount, wrapLocker.writeCount, regR, region($alloc)
 //
@@ -47,6 +51,8 @@ package keylock
 //@   requires !held(d.locker) && d == regLocker && key == regKey && regW > 0
 //@   atrelease regW = regW - 1
 //@   ensures #unregistered regW == old(regW) - 1 && regR == old(regR)
+//@   ensures #released(@local) !held(wrLocker.rwLocker)
+//@   ensures #mutexcalls lockcalls() == old(lockcalls()) + 1 && unlockcalls() == old(unlockcalls()) + 2
 //@   opt keeps-lock
 //@   modifies mapsof(d.lockMap), wrapLocker.readCount, wrapLocker.writeCount, regW
 //
@@ -54,6 +60,8 @@ package keylock
 //@   requires !held(d.locker) && d == regLocker && key == regKey && regR > 0
 //@   atrelease regR = regR - 1
 //@   ensures #unregistered regR == old(regR) - 1 && regW == old(regW)
+//@   ensures #released(@local) !held(wrLocker.rwLocker)
+//@   ensures #mutexcalls lockcalls() == old(lockcalls()) + 1 && unlockcalls() == old(unlockcalls()) + 2
 //@   opt keeps-lock
 //@   modifies mapsof(d.lockMap), wrapLocker.readCount, wrapLocker.writeCount, regR
 //
